@@ -32,7 +32,50 @@ def budgets(tier):
     return dict(shards=16, examples=6000, deadline_s=3000)
 
 
+ASB_VALUES = [0, 1, 23, 24, 255, 256, 65536, -1, {'b': ''}, {'b': '00'}, {'b': 'a1b2c3d4e5f6'}, [1, 2], [], {'b': '5a' * 40}]
+
+
+@st.composite
+def asb_cases(draw):
+    ''' An abstract security block (RFC 9172 3.6) as field values: the block-type-specific data of a BIB / BCB. '''
+    n_targets = draw(st.integers(1, 4))
+    targets = draw(st.lists(st.sampled_from([0, 0, 1, 2, 3, 23, 24, 255, 256, 65536]), min_size=n_targets, max_size=n_targets, unique=True))
+    value = st.sampled_from(ASB_VALUES)
+    pair = st.tuples(st.sampled_from([0, 1, 2, 3, 4, 5, 17, 24, 97, 256]), value).map(list)
+    params = draw(st.one_of(st.none(), st.lists(pair, max_size=4)))
+    results = [draw(st.lists(pair, max_size=3)) for _ in targets]
+    return {'kind': 'asb', 'type': draw(st.sampled_from([11, 12])), 'targets': targets, 'ctx': draw(st.sampled_from([1, 2, 3, 23, 24, 99, 256, 65536])),
+            'src': draw(strat.eids(allow_none=False)), 'params': params, 'results': results,
+            'pcrc': draw(st.sampled_from([0, 1, 2])), 'bcrc': draw(st.sampled_from([0, 1, 2]))}
+
+
+def enumerate_cases(tier):
+    ''' Status reports with DTN time 0 ("unknown", what a reporter without a clock writes) at each position, in every direction
+    and time form; abstract security blocks whose target list holds block number 0 (the primary block), alone, first, last. '''
+    base = {'primary': dict(version=7, flags=ref9171.FLAG_ADMIN, crc_type=1, dest=['dtn', '//dst/'], src=['dtn', '//src/'],
+                            rpt=['dtn', 'none'], ts=[1000, 1], lifetime=3600, frag=None)}
+    for pos in range(4):
+        for others in (False, True):
+            status = [[True, 0] if i == pos else ([True, 5 + i] if others else [False]) for i in range(4)]
+            rep = ref9171.status_report(status, 0, ['dtn', '//subject/'], [77, 3], None)
+            bundle = dict(base, blocks=[dict(type=1, num=1, flags=0, crc_type=2, data=rep)])
+            for mode in ('ref', 'repo', 'repo-obj'):
+                for timeform in ('int', 'datetime', 'reassign'):
+                    if mode == 'repo' and timeform != 'int':
+                        continue
+                    yield {'bundle': bundle, 'mode': mode, 'timeform': timeform}
+    for targets in ([0], [0, 1], [1, 0], [2, 0, 1], [3, 2, 1], [1, 2, 3], [24, 23]):
+        for btype in (11, 12):
+            for params in (None, [[1, 5]], [[5, 3], [1, {'b': '0102'}]]):
+                yield {'kind': 'asb', 'type': btype, 'targets': targets, 'ctx': 3, 'src': ['dtn', '//sec/'], 'params': params,
+                       'results': [[[1, {'b': '%02x' % t * 4}]] for t in targets], 'pcrc': 1, 'bcrc': 0}
+
+
 def strategy(tier):
+    return st.one_of(_bundle_cases(), _bundle_cases(), _bundle_cases(), asb_cases())
+
+
+def _bundle_cases():
     return st.fixed_dictionaries({
         'bundle': st.one_of(strat.bundles(), strat.bundles(extended_eid=True, max_ext=1)),
         'mode': st.sampled_from(['ref', 'repo', 'repo-obj']),
@@ -99,7 +142,98 @@ def _reassign_times(obj):
                 info.at = info.at
 
 
+def _asb_py(val):
+    if isinstance(val, dict):
+        return bytes.fromhex(val['b'])
+    if isinstance(val, list):
+        return [_asb_py(v) for v in val]
+    return val
+
+
+def execute_asb(case):
+    ''' The abstract security block of a BIB / BCB: reference octets -> repo fields (every field as the reference wrote it),
+    the decoded payload object encodes to the same octets again; built from field values by the repo -> the independent
+    parser reads the same values (targets and results in the order given: result list i belongs to target i). '''
+    from vlib import refcose as rc, cborpull as cb
+    from bp.encoding import Bundle, CanonicalBlock, PrimaryBlock, Timestamp
+    from bp.encoding.bpsec import AbstractSecurityBlock, BlockIntegrityBlock, BlockConfidentialityBlock, TypeValuePair, TargetResultList
+    out = Outcome()
+    params = None if case['params'] is None else [[pid, _asb_py(val)] for pid, val in case['params']]
+    results = [[[rid, _asb_py(val)] for rid, val in target] for target in case['results']]
+    asb = dict(targets=list(case['targets']), ctx=case['ctx'], flags=0 if params is None else 1, src=case['src'], params=params, results=results)
+    data_hex = rc.encode_asb(asb)
+    pri = dict(version=7, flags=0, crc_type=case['pcrc'], dest=['dtn', '//dst/svc'], src=['dtn', '//src/'], rpt=['dtn', 'none'],
+               ts=[1000, 5], lifetime=3600, frag=None)
+    bundle = {'primary': pri, 'blocks': [dict(type=case['type'], num=5, flags=0, crc_type=case['bcrc'], data=data_hex),
+                                         dict(type=192, num=2, flags=0, crc_type=0, data='aa'), dict(type=193, num=3, flags=0, crc_type=0, data='bb'),
+                                         dict(type=1, num=1, flags=0, crc_type=case['bcrc'], data='00112233')]}
+    out.label('asb', 'asb-type:%d' % case['type'], 'asb-targets:%d' % len(case['targets']), 'asb-params:%s' % ('none' if params is None else len(params)))
+    if 0 in case['targets']:
+        out.label('asb-targets-primary-block')
+    if case['targets'] != sorted(case['targets']):
+        out.label('asb-targets-not-ascending')
+    out.nontrivial = len(case['targets']) >= 2 or 0 in case['targets']
+    wire = ref9171.encode(bundle)
+
+    def fields_of(payload):
+        got = dict(targets=[int(t) for t in payload.getfieldval('targets')], ctx=int(payload.getfieldval('context_id')),
+                   flags=int(payload.getfieldval('context_flags')), src=ref9171.eid_parse(payload.getfieldval('source')))
+        plist = payload.getfieldval('parameters')
+        got['params'] = None if not got['flags'] & 1 else [[int(p.getfieldval('type_code')), p.getfieldval('value')] for p in (plist or [])]
+        got['results'] = [[[int(r.getfieldval('type_code')), r.getfieldval('value')] for r in (t.getfieldval('results') or [])]
+                          for t in payload.getfieldval('results')]
+        return got
+    want = dict(targets=asb['targets'], ctx=asb['ctx'], flags=asb['flags'], src=list(asb['src']), params=params, results=results)
+    # reference octets -> repo
+    try:
+        obj = Bundle(wire)
+        blk = [b for b in obj.getfieldval('blocks') if int(b.getfieldval('type_code')) == case['type']][0]
+        payload = blk.payload
+        if not isinstance(payload, AbstractSecurityBlock):
+            out.fail('asb-not-decoded', 'the block-type-specific data of a type %d block did not decode as an abstract security block (%s)'
+                     % (case['type'], type(payload).__name__))
+        else:
+            got = fields_of(payload)
+            got['src'] = list(got['src'])
+            diffs = ['%s: expected %r got %r' % (k, want[k], got[k]) for k in want if want[k] != got[k]]
+            if diffs:
+                out.fail('asb-decode-fields-differ', 'decoded security block fields differ: ' + '; '.join(diffs[:3]))
+            again = bytes(payload)
+            if again.hex() != data_hex:
+                out.fail('asb-reencode-differs', 'the decoded security block encodes to other octets: %s, original %s' % (again.hex()[:80], data_hex[:80]))
+        if bytes(obj) != wire:
+            out.fail('reencode-differs', 're-encoding the decoded bundle changes its bytes')
+    except Exception as err:
+        out.fail('decode-raises:%s' % type(err).__name__, 'repo cannot decode a bundle with a well-formed security block: %s: %s' % (type(err).__name__, err))
+    # field values -> repo -> octets -> independent parser
+    try:
+        cls = BlockIntegrityBlock if case['type'] == 11 else BlockConfidentialityBlock
+        kwargs = dict(targets=list(asb['targets']), context_id=asb['ctx'], context_flags=asb['flags'], source=ref9171.eid_text(asb['src']),
+                      results=[TargetResultList(results=[TypeValuePair(type_code=rid, value=val) for rid, val in target]) for target in results])
+        if params is not None:
+            kwargs['parameters'] = [TypeValuePair(type_code=pid, value=val) for pid, val in params]
+        built = CanonicalBlock(type_code=case['type'], block_num=5, block_flags=0, crc_type=case['bcrc']) / cls(**kwargs)
+        built.ensure_block_type_specific_data()
+        made = bytes(built.getfieldval('btsd'))
+    except Exception as err:
+        out.fail('encode-raises:%s' % type(err).__name__, 'repo cannot build a security block from its field values: %s: %s' % (type(err).__name__, err))
+        return out
+    try:
+        back = rc.parse_asb(made.hex())
+    except (rc.CoseError, cb.CborError, ref9171.RefError) as err:
+        out.fail('asb-not-wellformed', 'the independent parser rejects the security block the repo built: %s' % err)
+        return out
+    back.pop('src_raw', None)
+    back['src'] = list(back['src'])
+    diffs = ['%s: expected %r got %r' % (k, want[k], back.get(k)) for k in want if want[k] != back.get(k)]
+    if diffs:
+        out.fail('asb-encode-fields-differ', 'the independent parser reads other values from the security block the repo built: ' + '; '.join(diffs[:3]))
+    return out
+
+
 def execute(case):
+    if case.get('kind') == 'asb':
+        return execute_asb(case)
     from vlib import bpconv
     from bp.encoding import Bundle
     out = Outcome()
